@@ -641,6 +641,10 @@ func init() {
 				{Part: "C16/rs", Build: "plain", Shards: 8, BudgetS: b, Procs: 1, Label: "request server x lister behaviours"},
 				{Part: "C16/os", Build: "plain", Shards: 6, BudgetS: b, Procs: 1, Label: "os-backed server, every size"},
 				{Part: "C16/inmem", Build: "plain", Shards: 2, BudgetS: b, Procs: 1, Label: "example handler (listerat)"},
+				// termination under the scheduler (a listing that never ends is a deadlock there, not a hang): two pipelined listings
+				// served by a lister that derives a context from its request inside ListAt
+				{Part: "C16/sched", Build: "instr-w2", Args: map[string]string{"server": "rs", "progs": "twodirs", "bound": map[bool]string{false: "2", true: "3"}[tier == "thorough"]}, Shards: 8, BudgetS: b,
+					Label: "rs W=2 two pipelined listings under the scheduler (the lister uses its request inside ListAt)"},
 			}
 		},
 	})
